@@ -301,14 +301,14 @@ func verifC16AssertStringMap(got, want map[string]string, label string) {
 
 // verifC16Expect describes what a target write may look like.
 type verifC16Expect struct {
-	before       *unstructured.Unstructured // the cached target as it was before the sync
-	labels       map[string]string          // expected labels
-	annotations  map[string]string          // expected annotations
-	statusNil    bool                       // response status null: leave status alone
-	status       map[string]interface{}     // response status otherwise
-	finalizers   []string                   // expected finalizers
-	allowLabels  bool                       // false: labels must be as before (same for annotations/status)
-	statusOnly   bool
+	before      *unstructured.Unstructured // the cached target as it was before the sync
+	labels      map[string]string          // expected labels
+	annotations map[string]string          // expected annotations
+	statusNil   bool                       // response status null: leave status alone
+	status      map[string]interface{}     // response status otherwise
+	finalizers  []string                   // expected finalizers
+	allowLabels bool                       // false: labels must be as before (same for annotations/status)
+	statusOnly  bool
 }
 
 // verifC16AssertBody: a body sent for the target differs from the cached
